@@ -1527,6 +1527,57 @@ impl HttpsListener {
         if let Some(ref hdr) = patch.sozu_id_header {
             validate_sozu_id_header(hdr)?;
         }
+        // When `enabled` is missing on a present HSTS block, refuse the patch —
+        // `enabled` is the explicit disambiguator between "disable" and
+        // "enable" semantics, and the operator must signal one or the other on
+        // every update. Checked before any field of the live config changes.
+        if let Some(new_hsts) = patch.hsts {
+            if new_hsts.enabled.is_none() {
+                return Err(ListenerError::HstsEnabledRequired);
+            }
+        }
+
+        // --- fallible rebuilds, staged before anything is committed ---
+        //
+        // A rejected patch must leave the listener observably unchanged, so the
+        // candidate rustls context and the candidate answer templates are
+        // built first, from copies of the live configuration. `create_rustls_context`
+        // only reads the TLS fields (cipher/group lists, tickets, ALPN), none of
+        // which the simple field patches below can change.
+        let mut staged_rustls = None;
+        if let Some(ref alpn_wrapper) = patch.alpn_protocols {
+            let mut candidate = self.config.clone();
+            candidate.alpn_protocols = alpn_wrapper.values.clone();
+            staged_rustls = Some(Arc::new(Self::create_rustls_context(
+                &candidate,
+                self.resolver.clone(),
+            )?));
+        }
+        let answers_changed = patch.http_answers.is_some() || !patch.answers.is_empty();
+        let mut staged_answers = None;
+        if answers_changed {
+            let mut http_answers = self.config.http_answers.clone();
+            if let Some(ref new_answers) = patch.http_answers {
+                crate::sozu_command::state::merge_custom_http_answers(
+                    &mut http_answers,
+                    new_answers,
+                );
+            }
+            let mut answers = self.config.answers.clone();
+            for (code, body) in &patch.answers {
+                if !body.is_empty() {
+                    answers.insert(code.clone(), body.clone());
+                }
+            }
+
+            let mut answers_map = answers.clone();
+            if let Some(ref legacy) = http_answers {
+                crate::protocol::http::answers::merge_legacy_into_map(&mut answers_map, legacy);
+            }
+            let rebuilt = HttpAnswers::new(&answers_map)
+                .map_err(|(name, error)| ListenerError::TemplateParse(name, error))?;
+            staged_answers = Some((http_answers, answers, rebuilt));
+        }
 
         // --- simple field patches ---
         if let Some(v) = patch.public_address {
@@ -1631,13 +1682,9 @@ impl HttpsListener {
         // resolver error, etc.) leaves the listener observably unchanged —
         // the master-side state would still diverge from the worker-side
         // refusal, but the worker itself stays consistent.
-        if let Some(ref alpn_wrapper) = patch.alpn_protocols {
-            let mut candidate = self.config.clone();
-            candidate.alpn_protocols = alpn_wrapper.values.clone();
-            let new_rustls = Arc::new(Self::create_rustls_context(
-                &candidate,
-                self.resolver.clone(),
-            )?);
+        if let (Some(alpn_wrapper), Some(new_rustls)) =
+            (patch.alpn_protocols.as_ref(), staged_rustls)
+        {
             // Build succeeded — commit.
             self.config.alpn_protocols = alpn_wrapper.values.clone();
             self.rustls_details = new_rustls;
@@ -1655,26 +1702,9 @@ impl HttpsListener {
         // map on top of the existing config, then rebuild the listener-level
         // template registry. Per-cluster overrides in
         // `HttpAnswers::cluster_answers` are preserved across the rebuild.
-        let answers_changed = patch.http_answers.is_some() || !patch.answers.is_empty();
-        if answers_changed {
-            if let Some(ref new_answers) = patch.http_answers {
-                crate::sozu_command::state::merge_custom_http_answers(
-                    &mut self.config.http_answers,
-                    new_answers,
-                );
-            }
-            for (code, body) in &patch.answers {
-                if !body.is_empty() {
-                    self.config.answers.insert(code.clone(), body.clone());
-                }
-            }
-
-            let mut answers_map = self.config.answers.clone();
-            if let Some(ref legacy) = self.config.http_answers {
-                crate::protocol::http::answers::merge_legacy_into_map(&mut answers_map, legacy);
-            }
-            let mut rebuilt = HttpAnswers::new(&answers_map)
-                .map_err(|(name, error)| ListenerError::TemplateParse(name, error))?;
+        if let Some((http_answers, answers, mut rebuilt)) = staged_answers {
+            self.config.http_answers = http_answers;
+            self.config.answers = answers;
             let preserved = std::mem::take(&mut self.answers.borrow_mut().cluster_answers);
             rebuilt.cluster_answers = preserved;
             *self.answers.borrow_mut() = rebuilt;
@@ -1699,9 +1729,6 @@ impl HttpsListener {
         // `http.hsts.frontend_refreshed` counter (sum of refreshed
         // frontends from this patch).
         if let Some(new_hsts) = patch.hsts {
-            if new_hsts.enabled.is_none() {
-                return Err(ListenerError::HstsEnabledRequired);
-            }
             self.config.hsts = Some(new_hsts);
             let refreshed = self
                 .fronts
